@@ -68,25 +68,27 @@ Definition starved (s : ideal) : sslout := if i_reof s then SErr ESslEof else SW
 
 Definition CH : bytes := [1%N].   Definition SH : bytes := [2%N].   Definition FIN : bytes := [3%N].
 
+(* the head record of the incoming BIO if it is a complete HANDSHAKE record (a handshake never swallows data) *)
+Definition parse_hs (buf : bytes) : option (option bytes) :=      (* None: incomplete; Some None: wrong type; Some (Some rest) *)
+  match parse1 buf with
+  | None => None
+  | Some (t, _, rest) => if N.eqb t T_HS then Some (Some rest) else Some None
+  end.
+
 (* one call; returns the new state, the outcome and the bytes appended to the outgoing BIO *)
 Definition do_handshake (s : ideal) : ideal * sslout * bytes :=
+  let keep stage rbio := upd s stage rbio (i_plain s) (i_got_cn s) (i_sent_cn s) in
+  let need (stage' : nat) (out : sslout) (flight : bytes) :=
+    match parse_hs (i_rbio s) with
+    | None => (s, starved s, [])
+    | Some None => (s, SErr ESslOther, [])
+    | Some (Some rest) => (keep stage' rest, out, flight)
+    end in
   match i_stage s, i_client s with
-  | 0, true => (upd s 1 (i_rbio s) [] false false, SWantRead, enc T_HS CH)
-  | 0, false =>
-      match parse1 (i_rbio s) with
-      | Some (_, _, rest) => (upd s 1 rest [] false false, SWantRead, enc T_HS SH)
-      | None => (s, starved s, [])
-      end
-  | 1, true =>
-      match parse1 (i_rbio s) with
-      | Some (_, _, rest) => (upd s 2 rest [] false false, SOk 0, enc T_HS FIN)
-      | None => (s, starved s, [])
-      end
-  | 1, false =>
-      match parse1 (i_rbio s) with
-      | Some (_, _, rest) => (upd s 2 rest [] false false, SOk 0, [])
-      | None => (s, starved s, [])
-      end
+  | 0, true => (keep 1 (i_rbio s), SWantRead, enc T_HS CH)
+  | 0, false => need 1 SWantRead (enc T_HS SH)
+  | 1, true => need 2 (SOk 0) (enc T_HS FIN)
+  | 1, false => need 2 (SOk 0) []
   | _, _ => (s, SOk 0, [])
   end.
 
